@@ -56,7 +56,11 @@ def run(rep, tier):
 
     parts = xh.write_module("hC06_parts", H.parts_source(16))
     targets = [f"{parts}.check_defaults_p{p}" for p in range(16)] + ["harness.C06_defaults.twin_defaults_object_reached"]
-    xres = xh.run_targets(targets, timeout=300 if tier == "quick" else 1200)
+    import os
+
+    env = {"VERIF_C06_THOROUGH": "0" if tier == "quick" else "1"}
+    os.environ.update(env)
+    xres = xh.run_targets(targets, timeout=300 if tier == "quick" else 1800, env_extra=env)
     xh.fold(rep, parts, [r for r in xres if r.target.startswith(parts)])
     xh.fold(rep, "harness.C06_defaults", [r for r in xres if not r.target.startswith(parts)])
     rep.coverage["default_literal_cases"] = len(H.CASES)
@@ -78,6 +82,8 @@ def replay(data):
         return bool(r.get("accepted"))
     if q == "input_required":
         return not r.get("accepted")
+    if q == "input_image":
+        return bool(r.get("accepted"))
     return True
 
 
@@ -93,6 +99,11 @@ def _replay_child(data):
     try:
         pkg = Package(res["files"])
         ci = pkg.resolve("input_types", data["type"])
+        if data.get("q") == "input_image":
+            import ast as _ast
+
+            anns = {f.name: _ast.unparse(f.ann) for f in pkg.all_fields(ci).values()}
+            return {"annotations": anns, "accepted": not any("Any" in a for a in anns.values())}
         ns = {}
         exec(compile(ezin_check.VALIDATE_IN, "<v>", "exec"), ns)
         v = ezin.to_python_keys(pkg, ci, data["value"]) if data.get("by_name") else data["value"]
